@@ -82,6 +82,12 @@ pub struct NetCfg {
     pub explicit: Option<Vec<ExplicitFault>>,
     /// run the routing-table shape invariant at every scheduling point the simulator owns
     pub check_table_shape: bool,
+    /// scheduling jitter: a real node's send_to / recv_from call yields to the scheduler once (no
+    /// virtual time passes) before doing its work, so the node's other task, due timers, queued
+    /// API commands and deliveries of the same instant get to run in between. A pure function of
+    /// (seed, link, ordinal) like every other per-datagram decision; stays on in explicit replays.
+    #[serde(default)]
+    pub yield_ppm: u32,
 }
 
 impl NetCfg {
@@ -128,6 +134,7 @@ struct Mailbox {
     wakers: Vec<Waker>,
     kind: EpKind,
     recv_errs: u32,
+    recv_calls: u64,
 }
 
 struct InFlight {
@@ -601,7 +608,7 @@ impl Net {
         n.dead.remove(&addr);
         n.mailboxes.insert(
             addr,
-            Mailbox { q: VecDeque::new(), wakers: Vec::new(), kind: EpKind::Real, recv_errs: 0 },
+            Mailbox { q: VecDeque::new(), wakers: Vec::new(), kind: EpKind::Real, recv_errs: 0, recv_calls: 0 },
         );
         SimSocket { net: self.clone(), addr }
     }
@@ -613,6 +620,7 @@ impl Net {
             wakers: Vec::new(),
             kind: EpKind::Probe,
             recv_errs: 0,
+            recv_calls: 0,
         });
         ProbeSocket { net: self.clone(), addr }
     }
@@ -718,6 +726,18 @@ pub struct SimSocket {
 #[async_trait]
 impl btdht::SocketTrait for SimSocket {
     async fn send_to(&self, buf: &[u8], target: &SocketAddr) -> io::Result<()> {
+        let jitter = {
+            let mut n = self.net.lock();
+            let ord = n.link_ord.get(&(self.addr, *target)).copied().unwrap_or(0);
+            let y = n.cfg.yield_ppm > 0 && n.roll(&self.addr, target, ord, 21) % PPM < n.cfg.yield_ppm as u64;
+            if y {
+                n.bump("sched_yield_send");
+            }
+            y
+        };
+        if jitter {
+            tokio::task::yield_now().await;
+        }
         // stall: a slow socket; also the knob that moves the handler/bootstrap interleaving
         let stall = {
             let mut n = self.net.lock();
@@ -763,6 +783,25 @@ impl btdht::SocketTrait for SimSocket {
     }
 
     async fn recv_from(&self, buf: &mut [u8]) -> io::Result<(usize, SocketAddr)> {
+        let jitter = {
+            let mut n = self.net.lock();
+            let ppm = n.cfg.yield_ppm;
+            let calls = match n.mailboxes.get_mut(&self.addr) {
+                Some(m) => {
+                    m.recv_calls += 1;
+                    m.recv_calls
+                }
+                None => 0,
+            };
+            let y = ppm > 0 && n.roll(&self.addr, &self.addr, calls, 22) % PPM < ppm as u64;
+            if y {
+                n.bump("sched_yield_recv");
+            }
+            y
+        };
+        if jitter {
+            tokio::task::yield_now().await;
+        }
         std::future::poll_fn(|cx| {
             let mut n = self.net.lock();
             let m = match n.mailboxes.get_mut(&self.addr) {
